@@ -261,6 +261,14 @@ pub struct RunCfg {
     /// Per mille of crashes after which the node stays down for hours or days.
     #[serde(default)]
     pub f_long_downtime: u32,
+    /// Per mille chance that a task yields once before acquiring an async mutex
+    /// (preemption between critical sections).
+    #[serde(default)]
+    pub f_yield: u32,
+    /// Per mille chance that the scheduler executes two or three operations in
+    /// one step (several replies / deliveries become runnable together).
+    #[serde(default)]
+    pub f_multi: u32,
     /// wire profile: the first hook call is written in the same chunk as `init`.
     #[serde(default)]
     pub pipeline_init: bool,
@@ -346,6 +354,8 @@ pub fn base_cfg(rng: &mut Rng, profile: &str) -> RunCfg {
         mode: "process".into(),
         f_stall: 0,
         f_long_downtime: 0,
+        f_yield: 0,
+        f_multi: 0,
         pipeline_init: false,
         raw_opts: None,
         pre_parts: Vec::new(),
